@@ -557,6 +557,10 @@ pub fn gen_histories(rec: &mut Recorder, rng: &mut StdRng, n: usize) {
     let mut slots: Vec<Option<HashMapContext<DefaultNumericTypes>>> = vec![None, None];
     let probe: Vec<String> = fnames.iter().map(|s| s.to_string()).chain(std::iter::once("never_defined".to_string())).collect();
     let project = |c: &HashMapContext<DefaultNumericTypes>, log: &Log| project_hashmap(c, &probe, log).unwrap_or_else(|e| json!({"error": e}));
+    // a few expressions are precompiled ONCE and the same trees are evaluated again and again while the contexts change under
+    // them (functions bound, re-bound and cleared, the switch toggled, clones): a tree must not remember a context
+    let fixed_sources = ["max(1, 2)", "f(2)", "v0", "len(\"ab\")", "max(v1, 2) + 1", "v0(3)", "min(2, 1), max 5"];
+    let fixed_trees: Vec<Option<Tree>> = fixed_sources.iter().map(|s| build_operator_tree::<DefaultNumericTypes>(s).ok()).collect();
     for k in 0..n {
         if k % 200 == 0 {
             slots = vec![Some(HashMapContext::new()), None];
@@ -612,6 +616,17 @@ pub fn gen_histories(rec: &mut Recorder, rng: &mut StdRng, n: usize) {
                 let v = rand_value(rng, 2);
                 let r = guard(|| c.set_value(name.clone(), v.clone()).map(|_| Value::Empty));
                 rec.emit(json!({"ev": "set_value", "slot": s, "n": cps(&name), "v": enc_value(&v), "res": res_json(&r), "post": project(c, &log)}));
+            },
+            13..=14 => {
+                let i = rng.gen_range(0..fixed_sources.len());
+                if let Some(t) = &fixed_trees[i] {
+                    log.lock().unwrap().clear();
+                    let imm = rng.gen_bool(0.5);
+                    let r = guard(|| if imm { t.eval_with_context(&*c) } else { t.eval_with_context_mut(c) });
+                    let calls: Vec<(String, V)> = log.lock().unwrap().clone();
+                    rec.emit(json!({"ev": "eval", "slot": s, "src": cps(fixed_sources[i]), "level": "tree", "ek": "value",
+                                    "mode": if imm { "imm" } else { "mut" }, "res": res_json(&r), "post": project(c, &log), "log": log_json(&calls)}));
+                }
             },
             _ => {
                 // an expression: assignment of a literal, an op-assignment, a read, or a call
